@@ -40,6 +40,8 @@ func cmdGen(args []string) {
 				s = cooperativeScript(r, kind, tr, id)
 				s.CancelN = 2 + r.Intn(14)
 				s.CancelW = []string{"cancel", "deadline"}[r.Intn(2)]
+			case "sizes":
+				s = sizesScript(r, kind, tr, id, i)
 			case "card":
 				s = cardinalityScript(r, tr, id, i)
 			case "stall":
@@ -63,6 +65,40 @@ func cmdGen(args []string) {
 			enc.Encode(s)
 		}
 	}
+}
+
+// sizesScript: cooperative half-duplex calls whose messages sweep the encoded
+// sizes around every power of two, 8 B .. 128 KiB, in both directions (C01:
+// "all message contents ... large payloads"; the transports buffer, chunk and
+// frame at such boundaries). Script i uses the boundary sizes 4i+1 .. 4i+4.
+func sizesScript(r *rand.Rand, kind, tr, id string, i int) *Script {
+	s := &Script{ID: id, Kind: kind, Tr: tr, Mode: "free", Seed: r.Int63(), Calls: 1, ReqMD: true}
+	s.MsgCls = fmt.Sprintf("sized:%d", 4*(i/4))
+	if kind == "unary" {
+		s.CR = []Op{{Name: "Invoke"}}
+		s.H = number([]Op{{Name: "Recv"}, {Name: "Return", Arg: 0, Arg2: 1}})
+		return s
+	}
+	nreq, nresp := 1, 1
+	if s.reqStream() {
+		nreq = 4
+	}
+	if s.respStream() {
+		nresp = 4
+	}
+	for k := 0; k < nreq; k++ {
+		s.CS = append(s.CS, Op{Name: "Send"})
+	}
+	s.CS = append(s.CS, Op{Name: "CloseSend"})
+	s.CR = []Op{{Name: "RecvAll"}}
+	h := []Op{{Name: "RecvAll"}}
+	for k := 0; k < nresp; k++ {
+		h = append(h, Op{Name: "Send"})
+	}
+	h = append(h, Op{Name: "Return"})
+	s.H = number(h)
+	s.CS = number(s.CS)
+	return s
 }
 
 // cardinalityScript: single-response methods whose handler produces 0..3
